@@ -149,7 +149,7 @@ def blocks_op(rng, data, p=0.3):
     """a many-block in-place call: usually `*_blocks`, sometimes a caller-written closure for `*_with_backend` that uses the
     `_inplace` / `par` / `tail` backend entry points directly (variants 0-2; 3 goes buffer-to-buffer into a dirty buffer)"""
     if rng.random() < p:
-        return f"backend {rng.randrange(0, 5)} {hx(data)}"
+        return f"backend {rng.randrange(0, 6)} {hx(data)}"
     return f"blocks {hx(data)}"
 
 
@@ -163,7 +163,7 @@ def coreapply_op(rng, data, bs, p=0.5):
 def ks_op(rng, n, p=0.3):
     """`write_keystream_blocks`, or a caller-written closure for `process_with_backend`"""
     if rng.random() < p:
-        return f"ksdirect {rng.randrange(0, 3)} {n}"
+        return f"ksdirect {rng.randrange(0, 4)} {n}"
     return f"ksblocks {n}"
 
 
